@@ -212,21 +212,21 @@ def wsdStep (c : Cls) (g : Seg) (segStart : BitVec 64) (st : WsdSt) (idx : BitVe
         let cur := wsd_cur_offset pos segStart
         if wsd_req_lt_cur req cur then none else some (wsd_gap_addr req cur)
       else if wsd_align_branch generated sec.addrSet then
-        let al := if wsd_align_zero sec.addrAlign then 1 else sec.addrAlign
+        let al := if wsd_align_zero sec.addrAlign then wsd_align_one else sec.addrAlign
         some (wsd_gap_align al (wsd_error pos al))
-      else if generated then some (wsd_gap_generated sec.offset segStart st.file)
-      else some 0
+      else if wsd_generated_branch generated then some (wsd_gap_generated sec.offset segStart st.file)
+      else some wsd_gap_default
     match gapR with
     | none => pure none
     | some gap =>
       let mem := if wsd_counts_mem sec.flags g.stype sec.stype then wsd_mem_add st.mem sec.size gap else st.mem
       let file := if wsd_counts_file sec.stype then wsd_file_add st.file sec.size gap else st.file
-      if generated then pure (some { st with mem := mem, file := file }) else
+      if wsd_generated_skip generated then pure (some { st with mem := mem, file := file }) else
       let pos := wsd_cursor_gap pos gap
-      let sec := if !sec.addrSet then
+      let sec := if wsd_addr_missing sec.addrSet then
           { sec with addr := truncA c (wsd_new_addr g.vaddr pos segStart), addrSet := true } else sec
       let sec := setOffset c sec pos
-      let pos := if wsd_counts_file sec.stype then wsd_advance pos sec.size else pos
+      let pos := if wsd_occupies sec.stype then wsd_advance pos sec.size else pos
       pure (some { lay := { secs := st.lay.secs.set i sec, pos := pos, gen := st.lay.gen.set i true },
                    mem := mem, file := file })
 
@@ -237,10 +237,19 @@ def wsdLoop (c : Cls) (g : Seg) (segStart : BitVec 64) : List (BitVec 16) → Ws
     | none => pure none
     | some st' => wsdLoop c g segStart rest st'
 
+/-- `seg->get_sections_num()` as the three `get_sections_num() > 0` tests of
+    `layout_segments_and_their_sections` receive it.  The model keeps the member list as a `List`
+    and iterates over all of it; the count handed to the generated conditions is saturated at the
+    largest `Elf_Half`, so that "has members" means "the list is not empty" for every list (a
+    segment with 65536 or more members — where the C++ count wraps — is outside what the
+    correspondence generates, before and after this definition existed). -/
+def segMemberCount (g : Seg) : BitVec 16 := BitVec.ofNat 16 (min g.secs.length 65535)
+
 /-- one iteration of `layout_segments_and_their_sections`; returns the updated segment -/
 def layoutSegment (c : Cls) (hdrPhoff : BitVec 64) (phentsize phnum : BitVec 16) (lay : Layout) (g : Seg) :
     M (Option (Layout × Seg)) := do
   let nsec : BitVec 16 := BitVec.ofNat 16 g.secs.length
+  let nmem : BitVec 16 := segMemberCount g
   let first : Option (BitVec 16) := g.secs.head?
   let firstGen ← match first with
     | none => pure false
@@ -252,13 +261,13 @@ def layoutSegment (c : Cls) (hdrPhoff : BitVec 64) (phentsize phnum : BitVec 16)
       let sz := lseg_phdr_size phentsize phnum
       pure (lay, hdrPhoff, sz, sz)
     else if lseg_offset0 g.offsetSet g.offset then
-      pure (lay, (0 : BitVec 64), (if g.secs.length > 0 then lay.pos else 0), (if g.secs.length > 0 then lay.pos else 0))
-    else if g.secs.length > 0 && !firstGen then
+      pure (lay, (0 : BitVec 64), (if lseg_has_members0 nmem then lay.pos else 0), (if lseg_has_members0 nmem then lay.pos else 0))
+    else if lseg_fresh nmem firstGen then
       let al := lseg_align g.align
       let adj := lseg_adjustment (lseg_req_page g.vaddr al) (lseg_cur_page lay.pos al)
       let pos := lseg_advance lay.pos g.align adj al
       pure ({ lay with pos := pos }, pos, (0 : BitVec 64), (0 : BitVec 64))
-    else if g.secs.length > 0 then
+    else if lseg_has_members nmem then
       match first with
       | some f => match lay.secs[f.toNat]? with
         | some s => pure (lay, s.offset, (0 : BitVec 64), (0 : BitVec 64))
@@ -273,9 +282,13 @@ def layoutSegment (c : Cls) (hdrPhoff : BitVec 64) (phentsize phnum : BitVec 16)
     let g := { g with offset := truncA c segStart, offsetSet := true }
     pure (some (st.lay, g))
 
-/-- `is_section_without_segment(i)` -/
+/-- `is_section_without_segment(i)`: the two nested loops stop at the first hit (`!found && …`), i.e.
+    `any`; the comparison `get_section_index_at( k ) == section_index` (an `Elf_Half` against the
+    `unsigned int` parameter) and the result `!found` are the generated expressions.  The position `i`
+    is handed over as the C++ `unsigned int` it is, saturated at `UINT_MAX` (the loop counter of
+    `layout_sections_without_segments` cannot exceed it). -/
 def withoutSegment (segs : List Seg) (i : Nat) : Bool :=
-  !(segs.any fun g => g.secs.any fun k => k.toNat == i)
+  lsws_not_found (segs.any fun g => g.secs.any fun k => lsws_found k (BitVec.ofNat 32 (min i 4294967295)))
 
 /-- `layout_sections_without_segments` -/
 def layoutLoose (c : Cls) (segs : List Seg) : List SecBuf → Nat → BitVec 64 → List SecBuf → List SecBuf × BitVec 64
@@ -284,7 +297,7 @@ def layoutLoose (c : Cls) (segs : List Seg) : List SecBuf → Nat → BitVec 64 
     if withoutSegment segs i then
       let pos := if lsws_need_align s.addrAlign pos then lsws_aligned pos s.addrAlign else pos
       let s := setOffset c s pos
-      let pos := if lsws_occupies s.stype then wsd_advance pos s.size else pos
+      let pos := if lsws_occupies s.stype then lsws_advance pos s.size else pos
       layoutLoose c segs rest (i + 1) pos (s :: acc)
     else layoutLoose c segs rest (i + 1) pos (s :: acc)
 
